@@ -10,7 +10,7 @@ NoScope == [owner |-> 0, open |-> FALSE, fails |-> <<>>, tfail |-> 0, failed |->
 Init == /\ tid \in 1..N /\ l = 1 /\ bad = ""
         /\ sco = [s \in Ids |-> NoScope] /\ par = [k \in Ids |-> 0] /\ own = [i \in Ids |-> <<>>]
         /\ live = {} /\ gone = {}     \* tasks whose code has started and not ended / has ended
-IsPriv(x) == x # <<>> /\ x[1] = "exc" /\ x[3] = "Assert"
+IsPriv(x) == x # <<>> /\ x[1] = "exc" /\ x[3] \in {"Assert", "AssertSub"}
 Privs(fs) == SelectSeq(fs, IsPriv)
 Fail(c) == bad' = c /\ UNCHANGED <<sco, par, own>>
 \* is task k (transitively) inside scope s?
